@@ -12,6 +12,8 @@
 typedef struct
 {	unsigned char	data [MF_CAP] ;
 	sf_count_t	len, pos ;
+	sf_count_t	len_min ;	/* a lower bound of len the harness knows (keep it concrete): reads that
+					** end below it do not branch on a symbolic file length (R3/R8) */
 	int		n_read, n_write, n_seek, n_trunc, n_close ;
 } MEMFILE ;
 extern MEMFILE mf [MF_NFILES] ;
